@@ -567,14 +567,17 @@ def t_combine(spec, args, kw, cached, collector):
     return None
 
 
-def t_callback(spec, args, kw):
+def t_callback(spec, args, kw, own_reference=False):
+    """own_reference: the callback falls back through the mapper object the CALLER made and handed
+    to CallbackMapper (its own variable), not through mapper.fallback_mapper."""
     from pymbolic.mapper import CallbackMapper, IdentityMapper, UnsupportedExpressionError
     import pymbolic.primitives as p
     calls = []
+    ident = IdentityMapper()
 
     def fn(expr, mapper, *a, **k):
         calls.append((norm(expr), a, dict(k)))
-        fb = mapper.fallback_mapper
+        fb = ident if own_reference else mapper.fallback_mapper
         if isinstance(expr, p.Expression):
             for cls in type(expr).__mro__:
                 h = getattr(fb, getattr(cls, "mapper_method", "") or "", None)
@@ -585,7 +588,7 @@ def t_callback(spec, args, kw):
 
     tags = reachable_tags(spec)
     try:
-        res = CallbackMapper(fn, IdentityMapper())(build(spec), *args, **kw)
+        res = CallbackMapper(fn, ident)(build(spec), *args, **kw)
     except (UnsupportedExpressionError, NotImplementedError):
         if tags <= CALLBACK_SUPPORTED:
             return "callback:raises", "raised although every node type is in the callback list"
@@ -614,6 +617,7 @@ def traversal_failures(spec, shapes, r=None, only=None):
         jobs.append(("combine", lambda a=args, k=kw: t_combine(spec, a, k, False, False)))
         jobs.append(("collector", lambda a=args, k=kw: t_combine(spec, a, k, False, True)))
         jobs.append(("callback", lambda a=args, k=kw: t_callback(spec, a, k)))
+        jobs.append(("callback-own", lambda a=args, k=kw: t_callback(spec, a, k, True)))
         if hashable and all(_hashable_args(a, k) for a, k in [(args, kw)]):
             jobs.append(("identity-cached", lambda a=args, k=kw: t_identity(spec, a, k, True)))
             jobs.append(("rewrite-cached", lambda a=args, k=kw: t_rewrite(spec, a, k, True)))
@@ -687,7 +691,8 @@ class C04(Check):
             "shape of the full alphabet with every leaf combination and every (parent, position, "
             "child) nesting (thorough: plus three-level chains over 20 shapes) x extra-argument shapes (quick 3, thorough 6) x {identity, rewriting "
             "identity, walk, walk with visit()=False at each composite node, leaf-counting combine, "
-            "collector, callback} and their cached variants; combine and collector instances are "
+            "collector, callback (falling back through mapper.fallback_mapper and through the "
+            "caller's own reference)} and their cached variants; combine and collector instances are "
             "called again, after the whole tree, on every distinct subtree and on the whole tree "
             "(instance history). Non-trivial = composite tree / class "
             "with at least one handler; distinct = distinct (case) descriptors.")
